@@ -4,7 +4,7 @@ package router
 
 import vrt "github.com/nuetzliches/hookaido/internal/verifrt"
 
-// reference: exact match, or route "/" , or prefix followed by '/'
+// refMatch is the property's rule: equal, or route "/", or the route followed by a '/'.
 func refMatch(req, route string) bool {
 	if route == "" {
 		return false
@@ -26,8 +26,16 @@ func refMatch(req, route string) bool {
 	return req[len(route)] == '/'
 }
 
-func VerifMatchPath() {
-	req := vrt.String("req", 4)
-	route := vrt.String("route", 3)
-	vrt.Assert("C10.matchpath", MatchPath(req, route) == refMatch(req, route))
+// verif:harness props=C10 tier=quick native=yes weight=2
+// verif:bounds request path <= 4 bytes (thorough 7), route path <= 3 bytes (thorough 5), every byte value
+func VerifC10MatchPath() {
+	lr, lp := 4, 3
+	if vrt.Thorough() {
+		lr, lp = 7, 5
+	}
+	req := vrt.String("req", lr)
+	route := vrt.String("route", lp)
+	got := MatchPath(req, route)
+	vrt.Observe("match", got)
+	vrt.Assert("C10.matchpath", got == refMatch(req, route))
 }
